@@ -22,10 +22,10 @@ type Genuine struct {
 // AllowsComments: comments may be injected after signing iff every signature strips them.
 func (g *Genuine) AllowsComments() bool {
 	ok := true
-	if (g.Placement == "response" || g.Placement == "both") && g.RespSig != nil && C14NKeepsComments(g.RespSig.C14N) {
+	if g.SignsResponse() && g.RespSig != nil && C14NKeepsComments(g.RespSig.C14N) {
 		ok = false
 	}
-	if g.Placement == "assertions" || g.Placement == "both" {
+	if g.Placement == "assertions" || g.Placement == "both" || g.Placement == "mixed" {
 		for _, s := range g.AsrtSig {
 			if s != nil && C14NKeepsComments(s.C14N) {
 				ok = false
@@ -42,9 +42,11 @@ func (g *Genuine) Tree() (*etree.Element, error) {
 		Prettify(root, 0)
 	}
 	asrts := AssertionElements(root)
-	signA := g.Placement == "assertions" || g.Placement == "both"
+	signA := g.Placement == "assertions" || g.Placement == "both" || g.Placement == "mixed"
 	for i, a := range asrts {
-		if signA {
+		if g.Placement == "mixed" && (i >= len(g.AsrtSig) || g.AsrtSig[i] == nil) {
+			// "mixed": the Response is signed and only some assertions carry a signature of their own
+		} else if signA {
 			if i >= len(g.AsrtSig) || g.AsrtSig[i] == nil {
 				return nil, fmt.Errorf("missing assertion sign spec %d", i)
 			}
@@ -67,7 +69,7 @@ func (g *Genuine) Tree() (*etree.Element, error) {
 			root.InsertChildAt(idx, ea)
 		}
 	}
-	if g.Placement == "response" || g.Placement == "both" {
+	if g.SignsResponse() {
 		if g.RespSig == nil {
 			return nil, fmt.Errorf("missing response sign spec")
 		}
@@ -90,19 +92,42 @@ func (g *Genuine) Render() ([]byte, string, LayoutStats, error) {
 	return xml, Encode(xml, g.Pres), st, nil
 }
 
+// SignsResponse: the Response element itself carries a signature.
+func (g *Genuine) SignsResponse() bool {
+	return g.Placement == "response" || g.Placement == "both" || g.Placement == "mixed"
+}
+
+// OwnSig returns the sign spec of assertion i's own signature, or nil.
+func (g *Genuine) OwnSig(i int) *SignSpec {
+	if (g.Placement == "assertions" || g.Placement == "both" || g.Placement == "mixed") && i < len(g.AsrtSig) {
+		return g.AsrtSig[i]
+	}
+	return nil
+}
+
 // GenGenuine draws a complete genuine issuance for the SP. trusted lists the
 // signer keys to choose from (they must be in sp.Store for acceptance).
 func GenGenuine(sp SPConfig, trusted []string, mo ModelOpts, withEnc bool) *rapid.Generator[*Genuine] {
 	return rapid.Custom(func(t *rapid.T) *Genuine {
 		mo.SP = sp
 		g := &Genuine{Model: GenResponseModel(mo).Draw(t, "model"), NS: GenNSStyle().Draw(t, "ns")}
-		g.Placement = rapid.SampledFrom([]string{"response", "assertions", "both"}).Draw(t, "placement")
+		g.Placement = rapid.SampledFrom([]string{"response", "assertions", "both", "response", "assertions", "both", "mixed"}).Draw(t, "placement")
 		if g.Placement != "assertions" {
 			g.RespSig = GenSignSpec(trusted).Draw(t, "respSig")
 		}
 		if g.Placement != "response" {
 			for range g.Model.Assertions {
+				if g.Placement == "mixed" && rapid.Bool().Draw(t, "asrtUnsigned") {
+					g.AsrtSig = append(g.AsrtSig, nil)
+					continue
+				}
 				g.AsrtSig = append(g.AsrtSig, GenSignSpec(trusted).Draw(t, "asrtSig"))
+			}
+		}
+		if !g.SignsResponse() {
+			g.Model.ExtAssertion = nil
+			for i := range g.Model.Assertions {
+				g.Model.Assertions[i].Advice = nil
 			}
 		}
 		if withEnc && !sp.Enc.None() && rapid.IntRange(0, 2).Draw(t, "encrypt") == 0 {
